@@ -320,7 +320,24 @@ class NumpyProxy:
         return _np.abs(x) if isinstance(x, _np.ndarray) else abs(x)
 
     def isscalar(self, x):
-        return isinstance(x, S) or _np.isscalar(x)
+        return isinstance(x, S) or _np.isscalar(x) or (hasattr(x, "is_symbolic_scalar") and not isinstance(x, _np.ndarray))
+
+    def _finite_like(self, x, value):
+        # validation predicates on symbolic stand-ins: a symbol stands for a finite, valid number
+        if isinstance(x, S) or hasattr(x, "is_symbolic_scalar"):
+            return value
+        a = _np.asarray(x)
+        if a.dtype == object:
+            return _np.full(a.shape, value, dtype=bool) if a.ndim else value
+        return None
+
+    def isfinite(self, x):
+        r = self._finite_like(x, True)
+        return _np.isfinite(x) if r is None else r
+
+    def isinf(self, x):
+        r = self._finite_like(x, False)
+        return _np.isinf(x) if r is None else r
 
     def iscomplexobj(self, x):
         if isinstance(x, _np.ndarray) and x.dtype == object:
